@@ -24,7 +24,7 @@ Proof.
     assert (HF : forall l p sn, F l sn = lines_ok (fun n => canonical n 0) false 0 l (Some p) sn) end.
   { induction l as [|[g n] t IH]; intros p sn; [reflexivity|]. cbn [lines_ok]. rewrite (IH n).
     destruct (is_cmt n); cbn [negb orb andb].
-    - rewrite orb_false_r. destruct (is_line_cmt (craw n)); reflexivity.
+    - rewrite orb_false_r. reflexivity.
     - rewrite orb_true_r. reflexivity. }
   rewrite (HF rest c0) in Hrest.
   inversion Hall as [|? ? [Hw0 Hb0] Hall']; subst.
@@ -39,7 +39,7 @@ Proof.
   destruct (is_cmt c0) eqn:E0.
   - destruct c0; try discriminate. cbn [craw negb ctext] in *.
     apply cmt_canon_eq in Hfirst. rewrite Hl in Hs. rewrite spec_comment_shape, Hfirst in Hs.
-    cbn [blank has_empty_line app] in Hs. assert (Hsp : sp (if is_line_cmt raw then 0 else 0) = []) by (destruct (is_line_cmt raw); reflexivity).
+    cbn [blank has_empty_line app] in Hs. assert (Hsp : sp 0 = []) by reflexivity.
     rewrite Hsp in Hs. cbn [app] in Hs. inversion Hs as [Hs']. rewrite Hs'. repeat rewrite <- app_assoc. reflexivity.
   - cbn [negb] in *. rewrite Hl in Hs. rewrite (canon_spec c0 Hw0 E0 0 Hfirst) in Hs.
     cbn [blank has_empty_line app sp repeat] in Hs. inversion Hs as [Hs']. rewrite Hs'. repeat rewrite <- app_assoc. reflexivity.
